@@ -66,11 +66,29 @@ def _closure_args_reaching(F, b, t, target_short):
     return hit
 
 
+def _mutating_functions(F):
+    """Generic-free names of crate functions that (transitively) mutate the file system or run a process."""
+    direct = set()
+    for p, bd in F.bodies.items():
+        for _bb, tm in bd.calls():
+            cs = short(callee(tm))
+            if cs in FS_MUTATORS or cs in PROCESS_CALLS:
+                direct.add(p)
+    out = set()
+    for p in F.bodies:
+        if F.bodies[p].d["kind"] == "Closure":
+            continue
+        if F.reachable_from([p]) & direct:
+            out.add(short(p))
+    return out
+
+
 def rule_digest(F):
     """M-DIGEST: invalidate-before-mutate / validate-last on every path (= every crash point)."""
     res = RuleResult("M-DIGEST")
     # ---------------- process_file
     b = F.one("build::process_file")
+    mutating = _mutating_functions(F)
     INV, VAL, OUT = [], [], []
     for bb, t in b.calls():
         c = short(callee(t))
@@ -78,9 +96,9 @@ def rule_digest(F):
             INV.append(bb)
         elif c == "build::write_digest":
             VAL.append(bb)
-        elif c in FS_MUTATORS or c in PROCESS_CALLS or c == "build::compile_component_rlib":
+        elif c in FS_MUTATORS or c in PROCESS_CALLS or c in mutating:
             OUT.append(bb)
-        elif _closure_args_reaching(F, b, t, "build::compile_component_rlib"):
+        elif any(_closure_args_reaching(F, b, t, mfn) for mfn in mutating if mfn not in ("build::remove_digest", "build::write_digest")):
             OUT.append(bb)
     if not INV or not VAL or len(OUT) < 2:
         raise AnchorError("process_file: effect sites not found (INV=%s VAL=%s OUT=%s)" % (INV, VAL, OUT))
@@ -150,17 +168,38 @@ def rule_digest(F):
         res.notes.append("compile_component_rlib has no skip return")
     res.sample({"fn": "compile_component_rlib", "INV": INV, "VAL": VAL, "OUT": OUT, "ok_exits": oks, "skip": skip})
     # ---------------- (f) who may touch the file system / spawn processes
-    allowed = ("build::process_file", "build::compile_component_rlib", "build::write_digest", "build::remove_digest", "build::remove_stale_component_files")
+    # every function that mutates the file system or spawns a process runs only inside process_file: with process_file cut
+    # out of the call graph, none of them is reachable from any other function of the crate
+    pf_path = F.one("build::process_file").path
+    g = F.callgraph()
+    direct = {}
     for p, bd in F.bodies.items():
-        sp = short(p)
-        base = sp.split("::{closure#")[0]
         for bb, tm in bd.calls():
             cs = short(callee(tm))
             if cs in FS_MUTATORS or cs in PROCESS_CALLS or cs == "std::process::Command::new":
-                if base in allowed:
-                    res.ok()
-                else:
-                    res.bad("M-DIGEST:who-may-call:%s" % cs.rsplit("::", 1)[-1], bd.where(bb), "%s calls %s outside the digest protocol" % (p, cs))
+                direct.setdefault(p, []).append((bb, cs))
+    inside = F.reachable_from([pf_path])
+    outside_roots = [p for p in F.bodies if p not in inside]
+    seen = set()
+    stack = list(outside_roots)
+    while stack:
+        n = stack.pop()
+        if n in seen or n == pf_path:
+            continue
+        seen.add(n)
+        for c in g.get(n, ()):
+            if c in F.bodies:
+                stack.append(c)
+            else:
+                for bx in F.by_short.get(short(c), []):
+                    stack.append(bx.path)
+    for p, sites in direct.items():
+        bd = F.bodies[p]
+        for bb, cs in sites:
+            if p in seen:
+                res.bad("M-DIGEST:who-may-call:%s" % cs.rsplit("::", 1)[-1], bd.where(bb), "%s calls %s and is reachable without passing through process_file (outside the digest protocol)" % (p, cs))
+            else:
+                res.ok()
     # ---------------- (g) the component directory is enumerated: it must be exact
     pl = F.one("build::print_cargo_link_directives")
     enumerates = any(short(callee(tm)) == "std::fs::read_dir" for _bb, tm in pl.calls())
